@@ -1,3 +1,62 @@
-From NP Require Import Base.
-Theorem placeholder_C01 : True. Proof. exact I. Qed.
-Print Assumptions placeholder_C01.
+(* C01 — every nested value is a rectangular table; ragged input is refused.
+   State machine over the array API (Steps.v): any history, of any length, of selection / take / concat / copy /
+   dropna / pickle / element assignment / field edits / list-struct round trips, started from a column that
+   satisfies the invariant, only ever gives birth to columns that satisfy it (trace_inv: every intermediate state);
+   the invariant implies the property's reading: in every chunk every row has the same number of elements in every
+   field, and the field names and element types of the storage are those of the declared dtype.  The constructor with
+   validation (every entry point that takes data from outside funnels into it: construction, from_sequence, pack_lists,
+   set_list_field, astype cast, parquet load) accepts a struct-of-lists array only if it is rectangular and refuses
+   every ragged one; element assignment refuses ragged rows (C05_setitem: spec_col_setitem demands lrow_rect). *)
+From Coq Require Import String List Arith Bool ZArith.
+Import ListNotations.
+From NP Require Import Base Values Arrow Abs Kernels Logical ExtArray Codec Steps
+  Proofs_Views Proofs_Codec Proofs_Steps Proofs_Extras.
+From NP Require Import Props.C03.
+
+Theorem C01_step_keeps_invariant : forall p o p', inv_b p = true -> op_ok p o = true ->
+  m_step p o = Ok p' -> inv_b p' = true.
+Proof. exact step_inv. Qed.
+Print Assumptions C01_step_keeps_invariant.
+
+(* every array that comes into existence along a history, intermediate ones included *)
+Theorem C01_every_reachable_array : forall ops p, inv_b p = true -> ops_ok p ops = true ->
+  Forall (fun q => inv_b q = true) (m_trace p ops).
+Proof. exact trace_inv. Qed.
+Print Assumptions C01_every_reachable_array.
+
+Theorem C01_history_result : forall ops p p', inv_b p = true -> ops_ok p ops = true ->
+  m_run p ops = Ok p' -> inv_b p' = true.
+Proof. exact run_inv. Qed.
+Print Assumptions C01_history_result.
+
+(* what the invariant means: rectangular rows, storage schema = declared dtype *)
+Theorem C01_invariant_means_rectangular : forall p, wf_b p = true -> forallb rect_b (chunks p) = true.
+Proof. exact wf_rect. Qed.
+Print Assumptions C01_invariant_means_rectangular.
+
+Theorem C01_storage_schema_is_dtype : forall p c, wf_b p = true -> In c (chunks p) -> sc_schema c = ctype p.
+Proof. exact wf_schema. Qed.
+Print Assumptions C01_storage_schema_is_dtype.
+
+(* the validating constructor: sound, and refuses every ragged input *)
+Theorem C01_constructor_sound : forall p p', arrow_ok_b p = true -> m_init p true = Ok p' -> wf_b p' = true.
+Proof. exact init_sound. Qed.
+Print Assumptions C01_constructor_sound.
+
+Theorem C01_ragged_refused : forall p, arrow_ok_b p = true -> forallb rect_b (chunks p) = false ->
+  m_init p true = Err.
+Proof. exact init_refuses_ragged. Qed.
+Print Assumptions C01_ragged_refused.
+
+Definition ragged_witness : chunked :=
+  {| ctype := [("a"%string, TI64); ("b"%string, TF64)];
+     chunks := [ {| svalid := [true];
+                    sfields := [ {| fname := "a"%string; fty := TI64;
+                                    farr := {| offs := [0; 3]; lvalid := [true]; child := [VInt 1; VInt 2; VInt 3] |} |};
+                                 {| fname := "b"%string; fty := TF64;
+                                    farr := {| offs := [0; 1]; lvalid := [true]; child := [VTok 1] |} |} ] |} ] |}.
+Example C01_hypotheses_satisfiable :
+  inv_b sample_col = true /\ arrow_ok_b sample_col = true /\ m_init sample_col true = Ok sample_col
+  /\ arrow_ok_b ragged_witness = true /\ forallb rect_b (chunks ragged_witness) = false
+  /\ m_init ragged_witness true = Err.
+Proof. repeat split; reflexivity. Qed.
